@@ -3,6 +3,14 @@ From Coq Require Import Lia Arith PeanoNat String.
 From Gv Require Import lib.Bytes lib.Gql C17.Util C17.ValueSyntax C17.Base C17.Model C17.Spec C17.ProofsBase C17.ProofsGen.
 Open Scope N_scope.
 
+Lemma NoDup_app_intro : forall {A} (l1 l2 : list A),
+  NoDup l1 -> NoDup l2 -> (forall x, In x l1 -> In x l2 -> False) -> NoDup (l1 ++ l2).
+Proof.
+  induction l1; simpl; intros; auto. inversion H; subst. constructor.
+  - intro I. apply in_app_or in I. destruct I; auto. eapply H1; eauto.
+  - apply IHl1; auto. intros. eapply H1; eauto.
+Qed.
+
 (* ------------------------------------------------------------------ membership *)
 Lemma in_all_input_values_arg : forall S t f iv,
   In t (s_types S) -> In f (td_fields t) -> In iv (fd_args f) -> In iv (all_input_values S).
@@ -151,6 +159,81 @@ Proof. intros n H. unfold user_name_ok in H. apply andb_true_iff in H. destruct 
 Lemma user_name_nonempty : forall n, user_name_ok n = true -> n <> [].
 Proof. intros n H E. subst. discriminate. Qed.
 
+
+Lemma td_wf_cases : forall S t, td_wf S t = true ->
+  match td_kind t with
+  | KScalar => td_implements t = [] /\ td_fields t = [] /\ td_members t = [] /\ td_enum_values t = []
+               /\ td_input_fields t = [] /\ scalar_dirs_wf (td_dirs t) = true
+  | KObject | KInterface =>
+    nodup_b (td_implements t) = true
+    /\ forallb (resolves_as S (fun k => kind_eqb k KInterface)) (td_implements t) = true
+    /\ fields_wf S (td_fields t) = true /\ td_members t = [] /\ td_enum_values t = [] /\ td_input_fields t = []
+  | KUnion => td_implements t = [] /\ td_fields t = [] /\ td_members t <> [] /\ nodup_b (td_members t) = true
+              /\ forallb (resolves_as S (fun k => kind_eqb k KObject)) (td_members t) = true
+              /\ td_enum_values t = [] /\ td_input_fields t = []
+  | KEnum => td_implements t = [] /\ td_fields t = [] /\ td_members t = []
+             /\ nodup_b (map ev_name (td_enum_values t)) = true /\ forallb (ev_wf) (td_enum_values t) = true
+             /\ td_input_fields t = []
+  | KInputObject => td_implements t = [] /\ td_fields t = [] /\ td_members t = [] /\ td_enum_values t = []
+                    /\ ivs_wf S (td_input_fields t) = true
+  end.
+Proof.
+  intros S t H. unfold td_wf in H. apply andb_true_iff in H. destruct H as [_ H].
+  destruct (td_kind t).
+  - apply andb_true_iff in H. destruct H as [H H6]. apply andb_true_iff in H. destruct H as [H H5].
+    apply andb_true_iff in H. destruct H as [H H4]. apply andb_true_iff in H. destruct H as [H H3].
+    apply andb_true_iff in H. destruct H as [H1 H2].
+    repeat split; auto using is_nil_eq.
+  - apply andb_true_iff in H. destruct H as [H H6]. apply andb_true_iff in H. destruct H as [H H5].
+    apply andb_true_iff in H. destruct H as [H H4]. apply andb_true_iff in H. destruct H as [H H3].
+    apply andb_true_iff in H. destruct H as [H1 H2].
+    repeat split; auto using is_nil_eq.
+  - apply andb_true_iff in H. destruct H as [H H6]. apply andb_true_iff in H. destruct H as [H H5].
+    apply andb_true_iff in H. destruct H as [H H4]. apply andb_true_iff in H. destruct H as [H H3].
+    apply andb_true_iff in H. destruct H as [H1 H2].
+    repeat split; auto using is_nil_eq.
+  - apply andb_true_iff in H. destruct H as [H H7]. apply andb_true_iff in H. destruct H as [H H6].
+    apply andb_true_iff in H. destruct H as [H H5]. apply andb_true_iff in H. destruct H as [H H4].
+    apply andb_true_iff in H. destruct H as [H H3]. apply andb_true_iff in H. destruct H as [H1 H2].
+    split; [auto using is_nil_eq|]. split; [auto using is_nil_eq|]. split.
+    { intro E. rewrite E in H3. discriminate. }
+    repeat split; auto using is_nil_eq.
+  - apply andb_true_iff in H. destruct H as [H H7]. apply andb_true_iff in H. destruct H as [H H6].
+    apply andb_true_iff in H. destruct H as [H H5]. apply andb_true_iff in H. destruct H as [H H4].
+    apply andb_true_iff in H. destruct H as [H H3]. apply andb_true_iff in H. destruct H as [H1 H2].
+    repeat split; auto using is_nil_eq.
+  - apply andb_true_iff in H. destruct H as [H H6]. apply andb_true_iff in H. destruct H as [H H5].
+    apply andb_true_iff in H. destruct H as [H H4]. apply andb_true_iff in H. destruct H as [H H3].
+    apply andb_true_iff in H. destruct H as [H1 H2].
+    repeat split; auto using is_nil_eq.
+Qed.
+
+Lemma fields_wf_parts : forall S fs, fields_wf S fs = true ->
+  fs <> [] /\ NoDup (map fd_name fs) /\ (forall f, In f fs -> fd_wf S f = true).
+Proof.
+  intros S fs H. unfold fields_wf in H. apply andb_true_iff in H. destruct H as [H H3].
+  apply andb_true_iff in H. destruct H as [H1 H2]. split.
+  { intro E. subst. discriminate. }
+  split. { apply nodup_b_NoDup. auto. }
+  apply forallb_forall. auto.
+Qed.
+Lemma fd_wf_parts : forall S f, fd_wf S f = true ->
+  user_name_ok (fd_name f) = true /\ resolves_as S is_output_kind (named_of (fd_type f)) = true
+  /\ ivs_wf S (fd_args f) = true /\ dirs_wf (fd_dirs f) = true.
+Proof. intros S f H. unfold fd_wf in H. andb_split H. auto. Qed.
+Lemma ivs_wf_parts : forall S ivs, ivs_wf S ivs = true -> NoDup (map iv_name ivs) /\ (forall iv, In iv ivs -> iv_wf S iv = true).
+Proof.
+  intros S ivs H. unfold ivs_wf in H. apply andb_true_iff in H. destruct H as [H1 H2]. split.
+  { apply nodup_b_NoDup. auto. } apply forallb_forall. auto.
+Qed.
+Lemma iv_wf_parts : forall S iv, iv_wf S iv = true ->
+  user_name_ok (iv_name iv) = true /\ resolves_as S is_input_kind (named_of (iv_type iv)) = true
+  /\ (forall v, iv_default iv = Some v -> value_wf v = true) /\ dirs_wf (iv_dirs iv) = true.
+Proof.
+  intros S iv H. unfold iv_wf in H. andb_split H. repeat split; auto.
+  intros v E. rewrite E in H1. auto.
+Qed.
+
 Definition g1 (idx : list (name * idx_entry)) (dds : list directive_def) (all : list type_def) (t : type_def) : itype :=
   hd (empty_type IK_SCALAR []) (gen_type idx dds all t).
 Definition gd (idx : list (name * idx_entry)) (dds : list directive_def) (d : directive_def) : idirective :=
@@ -281,32 +364,37 @@ Section Shape.
     apply user_dirs_no_panic. { apply in_deprecable_iv. auto. } apply iv_wf_dirs. auto.
   Qed.
 
+  Lemma fields_clean : forall t, In t (s_types S) -> fields_wf S (td_fields t) = true ->
+    forall f, In f (td_fields t) -> field_clean f.
+  Proof.
+    intros t I FW f If. destruct (fields_wf_parts _ _ FW) as [_ [_ Ff]]. specialize (Ff f If).
+    destruct (fd_wf_parts _ _ Ff) as [_ [_ [A D]]]. split.
+    - apply user_dirs_no_panic; auto. eapply in_deprecable_field; eauto.
+    - apply ivs_no_panic; auto. intros. eapply in_all_input_values_arg; eauto.
+  Qed.
+
   Lemma user_type_clean : forall t, In t (s_types S) -> type_clean t.
   Proof.
     intros t I. destruct (wf_parts S WF) as [_ [_ [T _]]]. specialize (T t I).
-    unfold td_wf in T. apply andb_true_iff in T. destruct T as [_ T].
-    unfold type_clean.
-    destruct (td_kind t) eqn:K; andb_split T;
-      repeat match goal with H : is_nil _ = true |- _ => apply is_nil_eq in H; rewrite H end.
-    - (* scalar *) repeat split; try (intros; contradiction); auto. intros _.
+    apply td_wf_cases in T. unfold type_clean.
+    destruct (td_kind t) eqn:K.
+    - destruct T as [T1 [T2 [T3 [T4 [T5 T6]]]]]. rewrite T2, T4, T5.
+      repeat split; try (intros; contradiction); auto. intros _.
       unfold specified_panic, scalar_dirs_wf in *. rewrite find_dir_sp.
       destruct (sp_dir #"specifiedBy" (td_dirs t)); auto. rewrite find_arg_sp.
       destruct (sp_arg #"url" d) as [v|]; try discriminate. destruct v; try discriminate. auto.
-    - (* object *) split; [|repeat split; auto; intros; discriminate].
-      intros f If. unfold fields_wf in T1. andb_split T1. rewrite forallb_forall in T4. specialize (T4 f If).
-      unfold fd_wf in T4. andb_split T4. split.
-      + apply user_dirs_no_panic; auto. eapply in_deprecable_field; eauto.
-      + apply ivs_no_panic; auto. intros. eapply in_all_input_values_arg; eauto.
-    - (* interface *) split; [|repeat split; auto; intros; discriminate].
-      intros f If. unfold fields_wf in T1. andb_split T1. rewrite forallb_forall in T4. specialize (T4 f If).
-      unfold fd_wf in T4. andb_split T4. split.
-      + apply user_dirs_no_panic; auto. eapply in_deprecable_field; eauto.
-      + apply ivs_no_panic; auto. intros. eapply in_all_input_values_arg; eauto.
-    - (* union *) repeat split; try (intros; contradiction); auto. intros; discriminate.
-    - (* enum *) repeat split; try (intros; contradiction); auto; try (intros; discriminate).
+    - destruct T as [T1 [T2 [T3 [T4 [T5 T6]]]]]. rewrite T5, T6.
+      split; [apply fields_clean; auto|]. repeat split; auto. intros; discriminate.
+    - destruct T as [T1 [T2 [T3 [T4 [T5 T6]]]]]. rewrite T5, T6.
+      split; [apply fields_clean; auto|]. repeat split; auto. intros; discriminate.
+    - destruct T as [T1 [T2 [T3 [T4 [T5 [T6 T7]]]]]]. rewrite T2, T6, T7.
+      repeat split; try (intros; contradiction); auto. intros; discriminate.
+    - destruct T as [T1 [T2 [T3 [T4 [T5 T6]]]]]. rewrite T2, T6.
+      repeat split; try (intros; contradiction); auto; try (intros; discriminate).
       apply existsb_false_forall. intros e Ie. rewrite forallb_forall in T5. specialize (T5 e Ie).
       unfold ev_wf in T5. andb_split T5. apply user_dirs_no_panic; auto. eapply in_deprecable_enum; eauto.
-    - (* input *) repeat split; try (intros; contradiction); auto; try (intros; discriminate).
+    - destruct T as [T1 [T2 [T3 [T4 T5]]]]. rewrite T2, T4.
+      repeat split; try (intros; contradiction); auto; try (intros; discriminate).
       apply ivs_no_panic; auto. intros. eapply in_all_input_values_input; eauto.
   Qed.
 
@@ -333,9 +421,8 @@ Section Shape.
   Lemma generated_names :
     map it_name (map G1 (s_types S) ++ map scalar_itype base_scalar_names) = map td_name (s_types S) ++ base_scalar_names.
   Proof.
-    rewrite map_app, !map_map. f_equal.
-    - apply map_ext_in. intros t I. apply g1_name. apply user_name_not_uu. apply user_type_name_ok. auto.
-    - reflexivity.
+    rewrite map_app, !map_map. f_equal; try reflexivity.
+    apply map_ext_in. intros t I. apply g1_name. apply user_name_not_uu. apply user_type_name_ok. auto.
   Qed.
 
   Lemma all_names_nodup : NoDup (map td_name (s_types S) ++ base_scalar_names).
@@ -365,8 +452,8 @@ Section Shape.
   Lemma opt_root_lookup : forall n, opt_root_wf S n = true ->
     match n with Some n => type_by_name n (map G1 (s_types S) ++ map scalar_itype base_scalar_names) | None => None end = opt_root n.
   Proof.
-    intros [n|] H; simpl; auto. unfold root_wf in H.
-    destruct (find_type n (s_types S)) eqn:F; try discriminate. apply lookup_generated. auto.
+    intros [n|] H; [|reflexivity]. unfold opt_root_wf, root_wf in H. unfold opt_root.
+    destruct (find_type n (s_types S)) eqn:F; [|discriminate]. apply lookup_generated. auto.
   Qed.
 
   Theorem generate_shape : exists tq,
@@ -382,7 +469,7 @@ Section Shape.
     rewrite merged_no_type_panic, merged_no_dir_panic. cbn [orb].
     rewrite generated_types, generated_dirs, merged_query, merged_mutation, merged_subscription.
     destruct (s_query S) eqn:Q. { exfalso. apply query_nonempty. auto. }
-    rewrite <- Q. rewrite (lookup_generated _ _ F).
+    rewrite (lookup_generated _ _ F).
     rewrite (opt_root_lookup _ RM), (opt_root_lookup _ RS). auto.
   Qed.
 End Shape.
